@@ -75,6 +75,22 @@ def run_case(case):
                 continue
             if got.shape != (1,) or not np.isclose(got[0], rp[k], rtol=1e-12, atol=0):
                 bad("pdf_not_product", {"form": name, "point": pts[k], "got": got, "product": rp[k]})
+    # ---------------- integer-valued evaluation points (int lists / int arrays) are points like any other
+    ipts = np.array(list(itertools.product(*[[1, 2, 3]] * n_dim)))
+    rpi = ref_pdf(fams, cond_on, thetas, ipts.astype(float))
+    for name, arg in (("int_ndarray2d", ipts), ("int_list_of_lists", ipts.tolist()), ("int_list1d", ipts[-1].tolist())):
+        neval += 1
+        got = np.asarray(model.pdf(arg), dtype=float).reshape(-1)
+        exp = rpi if name != "int_list1d" else rpi[-1:]
+        if got.shape != exp.shape or not np.allclose(got, exp, rtol=1e-12, atol=0):
+            bad("pdf_not_product", {"form": name, "point": ipts[-1], "got": got[-1:], "product": exp[-1:]}, integer_input=True)
+    for dim in case.get("marginal_dims", [])[-1:]:
+        for meth in ("marginal_pdf", "marginal_cdf"):
+            gi = np.asarray(getattr(model, meth)(np.array([2]), dim), dtype=float)
+            gf = np.asarray(getattr(model, meth)(np.array([2.0]), dim), dtype=float)
+            neval += 2
+            if not np.allclose(gi, gf, rtol=1e-9, atol=0):
+                bad(meth + "_integer_input", {"dim": dim, "x": 2, "int_input": gi, "float_input": gf}, integer_input=True)
     # ---------------- integrates to one (cubature of the implementation's pdf over the positive orthant)
     kinks = kinks_for(fams)
     nb = 24 if n_dim == 2 else 12
